@@ -54,6 +54,32 @@ Round 4 (input shapes, aliasing, override gaps, conventions, numeric edges, rare
     divisibility (Gen/ResampleSrc.lean); the object machine follows it, the oracle reports the unrepaired code as
     the recorded finding C13-cont-inplace-cull-nondividing (fixes/C13_continuous_cull_in_place_divisor.patch).
 
+Round 6 (comparison through the objects' rich ordering instead of a derived field: the hidden year of DateTime):
+  * CLASS: a DateTime orders / equals itself with its hidden year (2016 leap, 2017 common), so a comparison of a step
+    with header.analysis_period.st_time / end_time through <, >, ==, .date instead of .doy / .moy / month-day changes
+    nothing while steps and header are of the same kind of year and everything when they are not.  The statement says
+    "any starting header": a header with the WRONG LEAP FLAG is one.  The `leap_mix` stratum (14 % of the hourly
+    validation stream: leap steps with / without 29 Feb under a common-year header, common-year steps under a leap
+    header, placed around the header dates of their own calendar; non-wrapping, annual and wrapping headers) is now part
+    of the ORACLE, not only of the correspondence: same pairs, sorted from the period start, every step a step of the
+    output period BY ITS CALENDAR FIELDS (month, day, hour, minute counted in the year of the output period), 29 Feb
+    only in a leap period (`cause: leap29`).  Fixed corpus: seven such inputs (`_corpus`).
+  * the unchanged code itself decides by day / minute of the YEAR with each side counted in its own kind of year, which
+    is off by one day after February: recorded finding C13-hourly-leap-mix-day-of-year, matched through the input-only
+    flag `mix_tie` (`_mix_tie`: some step for which a day-of-year / minute-of-year comparison the validation takes differs
+    from the comparison of the calendar fields); Lean: C13_validate_leap_mix_counterexample.  Inputs without such a tie
+    are judged at full strength, so a change of the class is reported with a failing input.
+  * Lean: C13_validate_leap_mix_flag (leap flag of the output period for every pair of flags),
+    C13_validate_leap_mix_widens (the widening is a function of the days of the year and takes the step's own date).
+  * the same input class for the keyed collections: day 366 under a header that is not flagged leap (DailyCollection)
+    is no longer left out of the oracle stream; the unchanged code compares the days (of the leap year) with the
+    header's day numbers counted in a common year: finding C13-daily-leap-mix-day-of-year through `_daily_mix_tie`;
+    Lean: C13_validate_daily_leap_mix_counterexample.
+  * DateTime comparisons in the anchored code: validate_analysis_period (sorted(); first / last against st_time / end_time
+    .doy; rotation point .moy; "make it annual" .doy; duplicates !=), interpolate_holes (== between period steps and
+    collection steps: only reached with equal flags here; hole filling of a collection validated from leap steps
+    without 29 Feb under a common-year header is not covered).
+
 Consumers of every modelled mechanism (each is exercised by a correspondence op or an oracle clause):
   _timestep_cull ............. cull_to_timestep, convert_to_culled_timestep (discontinuous, continuous, immutable
                                twins: cull / history ops cull, convcull)
@@ -84,7 +110,8 @@ GREP_MODULES = ['Ladybug.Model.Resample', 'Ladybug.Model.ResampleObj', 'Ladybug.
                 'Ladybug.Proofs.C13Contain', 'Ladybug.Proofs.C13Holes', 'Ladybug.Drv.C13',
                 'Ladybug.Model.AP', 'Ladybug.Model.Cal', 'Ladybug.Py', 'Ladybug.DrvCore']
 RULE = ('correspondence: header periods from a boundary product (one day / few days / months / annual / '
-        'wrapping the year end; hour windows full, partial, overnight; 8 timesteps; leap) x data = subsets '
+        'wrapping the year end; hour windows full, partial, overnight; 8 timesteps; leap; 14 % with steps flagged for the '
+        'other kind of year than the header, in correspondence AND oracle) x data = subsets '
         'of the annual grid placed inside, across the edges of and far from the header period (sizes '
         '0,1,2,3,10,50; thorough up to 500), shuffled, on the header grid / a finer grid / mixed minute '
         'offsets, ~8 % malformed (duplicates, empty, invalid target timesteps); hole patterns leading / '
@@ -119,8 +146,9 @@ TRUSTED_BASE = [
     'tools/extract/resample_src.py (one Boolean, Gen/ResampleSrc.lean); the machine is proved for both values',
 ]
 ASSUMPTIONS = [
-    'all DateTime objects of one hourly collection carry the same leap flag, equal to the header flag '
-    '(theorems); the mixed case is only compared',
+    'all DateTime objects of one hourly collection carry the same leap flag; the containment theorems need it equal to '
+    'the header flag; a header with the other flag is compared with the model, judged by the oracle on calendar fields '
+    '(finding C13-hourly-leap-mix-day-of-year for day-of-year ties) and covered by C13_validate_leap_mix_flag / _widens',
     'containment is judged by the C04 membership predicate of the output period',
     'hole filling is claimed for validated collections whose period has the hour window 0..23 '
     '(HourlyContinuousCollection accepts no other)',
@@ -408,12 +436,20 @@ def _gen_validate_hourly(ctx, count):
             data.append([data[0][0], len(data) + 1])
             rng.shuffle(data)
             tag = 'duplicate'
-        elif r < 0.14 and not ap[7]:
-            # data carry the leap flag the header lacks
-            dl = True
-            if rng.random() < 0.6:
-                data.append([59 * 1440 + rng.randrange(24) * 60, len(data) + 1])    # 29 Feb
+        elif r < 0.22:
+            # the steps are flagged for the other kind of year than the header (leap steps under a common-year
+            # header, 29 Feb among them or not; common-year steps under a leap header); they are placed
+            # around the header dates of their OWN calendar
+            dl = not ap[7]
+            data = _gen_hourly_data(rng, ap[:7] + [dl], ctx.n(50, 500))
+            if dl and rng.random() < 0.6:
+                m29 = 59 * 1440 + rng.randrange(24) * 60                             # 29 Feb
+                if m29 not in [m for m, _ in data]:
+                    data.append([m29, len(data) + 1])
+                    rng.shuffle(data)
             tag = 'leap_mix'
+            ctx.count('validate_hourly:leap_mix:%s:%s' % ('leap_steps' if dl else 'leap_header',
+                                                          'tie' if _mix_tie(ap, dl, data) else 'plain'))
         out.append(_pick_shapes(rng, {'ap': ap, 'dl': dl, 'data': data, 'tag': tag}))
     return out
 
@@ -989,12 +1025,77 @@ def _same_answer(a, b):
     return None if sa == sb else _diff_snap(sa, sb)
 
 
+def _moy_in_year(leap_to, leap_from, moy):
+    """The minute of the year of the calendar date (month, day, hour, minute) that `moy` is in a year of
+    kind `leap_from`, counted in a year of kind `leap_to`; None for 29 Feb in a common year."""
+    if bool(leap_to) == bool(leap_from):
+        return moy
+    mo, da, h, mi = _moy_fields(leap_from, moy)
+    if (mo, da) == (2, 29):
+        return None
+    return (_md_to_doy(leap_to, mo, da) - 1) * 1440 + h * 60 + mi
+
+
+def _mix_tie(ap, dl, data):
+    """Input-only fact for the signature of a leap-mixed validation (steps flagged for one kind of year under a
+    header of the other kind): does deciding by the DAY OF THE YEAR (each side counted in
+    its own year) miss a widening that the calendar dates (month, day) call for?  Only possible after February,
+    where the two day counts differ by one."""
+    if not data or bool(dl) == bool(ap[7]):
+        return False
+    st_doy, en_doy = _md_to_doy(ap[7], ap[0], ap[1]), _md_to_doy(ap[7], ap[3], ap[4])
+    if (st_doy, ap[2]) > (en_doy, ap[5]):
+        # wrapping header: the rotation point (minute of the year against the end of the header + 1 h) and the
+        # "outside on both sides" test (day of the year strictly between end and start) are taken for every
+        # step; a tie is a step for which one of them differs from the comparison of the calendar fields
+        for m, _ in data:
+            mo, da, h, mi = _moy_fields(dl, m)
+            doy = m // 1440 + 1
+            if (m < (en_doy - 1) * 1440 + ap[5] * 60 + 60) != ((mo, da, h * 60 + mi) < (ap[3], ap[4], ap[5] * 60 + 60)):
+                return True
+            if (doy > en_doy) != ((mo, da) > (ap[3], ap[4])) or (doy < st_doy) != ((mo, da) < (ap[0], ap[1])):
+                return True
+        return False
+    first, last = min(m for m, _ in data), max(m for m, _ in data)
+    fmd, lmd = _moy_fields(dl, first)[:2], _moy_fields(dl, last)[:2]
+    need_st = fmd < (ap[0], ap[1])
+    need_en = lmd > (ap[3], ap[4])
+    doy_st = first // 1440 + 1 < _md_to_doy(ap[7], ap[0], ap[1])
+    doy_en = last // 1440 + 1 > _md_to_doy(ap[7], ap[3], ap[4])
+    return bool((need_st and not doy_st) or (need_en and not doy_en))
+
+
+def _LM(mo, da, h):
+    """Minute of a leap year of month/day/hour."""
+    return (_md_to_doy(True, mo, da) - 1) * 1440 + h * 60
+
+
+def _CM(mo, da, h):
+    """Minute of a common year of month/day/hour."""
+    return (_md_to_doy(False, mo, da) - 1) * 1440 + h * 60
+
+
+def _daily_mix_tie(ap, days):
+    """Input-only fact for the signature of a daily validation with day 366 under a common-year header: is there a
+    day whose position against the start / end of the header differs between the header dates counted in a common
+    year (what the header object says) and in the leap year the days belong to?  Only the day that equals the
+    common-year number of a start after February, or the leap-year number of an end after February."""
+    st_c, st_l = _md_to_doy(False, ap[0], ap[1]), _md_to_doy(True, ap[0], ap[1])
+    en_c, en_l = _md_to_doy(False, ap[3], ap[4]), _md_to_doy(True, ap[3], ap[4])
+    return any((d < st_c) != (d < st_l) or (d > en_c) != (d > en_l) for d in days if isinstance(d, int))
+
+
 def _contains(ap, leap_dt, moy):
     """Is the step (minute of the year, leap flag of its DateTime) a step of the period `ap`
     (AnalysisPeriod object)?  Written from the description of a period: grid, hour window, date
     range; cyclic for wrapping periods.  Returns None or the name of the criterion that fails."""
     if bool(ap.is_leap_year) != bool(leap_dt):
-        return 'leap'
+        # a step flagged for the other kind of year (header with the wrong leap flag): it is judged by its
+        # calendar fields (month, day, hour, minute) in the year of the period; 29 Feb has no place in a
+        # common year
+        moy = _moy_in_year(ap.is_leap_year, leap_dt, moy)
+        if moy is None:
+            return 'leap29'
     step = 60 // ap.timestep
     if moy % step:
         return 'grid'
@@ -1025,6 +1126,8 @@ def _check_validate_hourly(inp):
     ap, dl, data = inp['ap'], inp['dl'], inp['data']
     sig = {'header': _header_kind(ap), 'window': 'full' if (ap[2], ap[5]) == (0, 23) else 'partial',
            'leap_mix': bool(dl) != bool(ap[7]), 'n': 'one' if len(data) == 1 else 'many'}
+    if sig['leap_mix']:
+        sig.update(mix_tie=_mix_tie(ap, dl, data), mix='leap_steps' if dl else 'leap_header')
     sig.update(imm=bool(inp.get('imm')), shape='%s/%s/%s' % (inp.get('dshape', 'list'), inp.get('vshape', 'list'),
                                                               inp.get('apshape', 'ctor')))
     moys = [m for m, _ in data]
@@ -1075,7 +1178,11 @@ def _pred_validated(v, dl, data, sig, header=('C', {'k': 'v'}, 'Temperature')):
     nleap = bool(nap.is_leap_year)
     ny = _ny(nleap)
     st = (_md_to_doy(nleap, nap.st_month, nap.st_day) - 1) * 1440 + nap.st_hour * 60
-    keys = [(m - st) % ny for m, _, _ in got] if nap.is_reversed else [m for m, _, _ in got]
+    pm = [_moy_in_year(nleap, l, m) for m, l, _ in got]          # in the year of the output period
+    if any(m is None for m in pm):
+        return {'required': 'a period with 29 Feb for steps on 29 Feb', 'observed': str(nap),
+                'sig': dict(sig, fail='contain', cause='leap29')}
+    keys = [(m - st) % ny for m in pm] if nap.is_reversed else pm
     if any(a >= b for a, b in zip(keys, keys[1:])):
         return {'required': 'chronological order from the period start', 'sig': dict(sig, fail='order'),
                 'observed': '%s: %s' % (nap, [str(d) for d in v.datetimes][:12])}
@@ -1097,6 +1204,9 @@ def _check_validate_keys(op, inp):
     keys = [tuple(k) if isinstance(k, list) else k for k, _ in data]
     sig = {'header': _header_kind(ap), 'n': 'one' if len(data) == 1 else 'many',
            'same_month': ap[0] == ap[3], 'window': 'full' if (ap[2], ap[5]) == (0, 23) else 'partial'}
+    if op == 'validate_daily' and not ap[7] and any(k == 366 for k in keys):
+        # day 366 under a header that is not flagged leap (round 6): the days are days of a leap year
+        sig.update(leap_mix=True, mix_tie=_daily_mix_tie(ap, keys))
     dup = len(set(keys)) != len(keys)
     sig.update(imm=bool(inp.get('imm')), shape='%s/%s/%s' % (inp.get('dshape', 'list'), inp.get('vshape', 'list'),
                                                               inp.get('apshape', 'ctor')))
@@ -1200,9 +1310,14 @@ def _check_holes(inp):
     pos = {m: i for i, m in enumerate(steps)}
     sig = {'header': _header_kind(ap), 'ts': 'hourly' if ap[6] == 1 else 'sub',
            'leading': data[0][0] != steps[0], 'via': inp.get('via', 'flag'), 'imm': bool(inp.get('imm'))}
+    # steps flagged for the other kind of year than the header (same calendar dates; round 6, fixed corpus only)
+    dl = inp.get('dl', leap)
+    dt_moys = [_moy_in_year(dl, leap, m) for m, _ in data]
+    if bool(dl) != bool(leap):
+        sig['leap_mix'] = True
 
     def build(c):
-        coll = _build_disc(c, [_num(c, v) for _, v in data], [m for m, _ in data], leap)
+        coll = _build_disc(c, [_num(c, v) for _, v in data], dt_moys, dl)
         if c.get('via') == 'validate':
             coll = coll.validate_analysis_period()
             if c.get('imm'):
@@ -2634,6 +2749,35 @@ def _corpus():
         # wrapping header, sub-hourly data in the last hour (repaired: validate_reversed_subhourly_tail)
         ('validate_hourly', {'ap': [12, 30, 0, 1, 2, 23, 2, False], 'dl': False,
                              'data': [[2 * 1440 - 30, 1], [363 * 1440, 2], [60, 3]], 'tag': 'ok'}),
+        # header with the wrong leap flag (round 6): leap steps (29 Feb among them / not) under a common-year header
+        # that ends before the last step / starts after the first; common-year steps under a leap header
+        ('validate_hourly', {'ap': [6, 21, 0, 6, 21, 23, 1, False], 'dl': True,
+                             'data': [[_LM(7, 4, 12), 4], [_LM(2, 29, 12), 1], [_LM(6, 21, 12), 2], [_LM(6, 25, 9), 3]]}),
+        ('validate_hourly', {'ap': [6, 21, 0, 6, 23, 23, 1, False], 'dl': True, 'imm': True, 'twin': True,
+                             'data': [[_LM(9, 4, 12), 3], [_LM(6, 22, 0), 2], [_LM(1, 2, 3), 1]]}),
+        ('validate_hourly', {'ap': [6, 21, 0, 6, 23, 23, 2, True], 'dl': False, 'dshape': 'gen',
+                             'data': [[_CM(6, 22, 12) + 30, 2], [_CM(4, 30, 23), 1], [_CM(12, 31, 23), 3]]}),
+        ('validate_hourly', {'ap': [1, 1, 0, 12, 31, 23, 1, False], 'dl': True,
+                             'data': [[_LM(12, 31, 23), 2], [_LM(2, 29, 0), 1]]}),
+        ('validate_hourly', {'ap': [12, 30, 0, 1, 2, 23, 1, False], 'dl': True, 'vshape': 'tuple',
+                             'data': [[_LM(1, 2, 23), 2], [_LM(12, 31, 0), 1], [_LM(1, 1, 5), 3]]}),
+        ('validate_hourly', {'ap': [6, 21, 0, 6, 19, 23, 1, True], 'dl': False,
+                             'data': [[_CM(6, 19, 23), 3], [_CM(6, 21, 0), 1], [_CM(2, 28, 7), 2]]}),
+        ('validate_hourly', {'ap': [11, 5, 0, 2, 10, 23, 1, False], 'dl': True,
+                             'data': [[_LM(6, 1, 0), 3], [_LM(2, 29, 0), 1], [_LM(12, 1, 7), 2]]}),
+        # day 366 under a header that is not flagged leap: widened on both sides / kept; the recorded finding
+        # C13-daily-leap-mix-day-of-year (day 177 = 25 Jun of the leap year, header start 6/26 = day 177 of a common year)
+        ('validate_daily', {'ap': [6, 26, 0, 9, 1, 23, 1, False], 'data': [[366, 3], [100, 1], [200, 2]]}),
+        ('validate_daily', {'ap': [1, 10, 0, 2, 20, 23, 1, False], 'data': [[366, 3], [12, 1], [51, 2]], 'imm': True, 'twin': True}),
+        ('validate_daily', {'ap': [6, 26, 1, 6, 26, 22, 1, False], 'data': [[177, 1], [366, 2]]}),
+        # recorded finding C13-holes-leap-mix: leap steps (no 29 Feb) validated under a common-year header keep their flag;
+        # hole filling then compares them with the steps of the period through DateTime equality (hidden year)
+        ('holes', {'ap': [6, 21, 0, 6, 21, 23, 1, False], 'dl': True, 'via': 'validate',
+                   'data': [[_CM(6, 21, 0), 1], [_CM(6, 21, 1), 2], [_CM(6, 21, 4), 5], [_CM(6, 21, 23), 7]]}),
+        # recorded finding C13-hourly-leap-mix-day-of-year: 29 Feb (day 60 of a leap year) under a common-year header
+        # that starts on 1 Mar (day 60 of a common year) does not move the start
+        ('validate_hourly', {'ap': [3, 1, 0, 3, 31, 23, 1, False], 'dl': True,
+                             'data': [[_LM(3, 15, 12), 2], [_LM(2, 29, 22), 1]]}),
         # recorded findings
         ('validate_hourly', {'ap': [6, 21, 0, 6, 21, 12, 4, False], 'dl': False,
                              'data': [[246840, 1], [247425, 2]], 'tag': 'ok'}),
@@ -2815,8 +2959,6 @@ def _oracle_cases(ctx):
         for c in _gen_validate_hourly(ctx, 8000 if big else 1000):
             if c['tag'] in ('empty',):
                 continue
-            if c['tag'] == 'leap_mix':
-                continue                       # outside the quantifier (header with the wrong leap flag)
             yield 'validate_hourly', dict(_opt(c), ap=c['ap'], dl=c['dl'], data=c['data'], **_tw(rng))
 
     def b_keys(kind, op):
@@ -2825,7 +2967,9 @@ def _oracle_cases(ctx):
                 if c['tag'] in ('empty', 'bad_key'):
                     continue
                 if kind == 'daily' and not c['ap'][7] and any(k == 366 for k, _ in c['data']):
-                    continue                   # header with the wrong leap flag: outside the quantifier
+                    # header with the wrong leap flag (round 6): judged like any other, ties are the recorded finding
+                    ctx.count('oracle_leap_mix:daily:%s:%s' % (_header_kind(c['ap']), 'tie' if _daily_mix_tie(
+                        c['ap'], [k for k, _ in c['data']]) else 'plain'))
                 yield op, dict(_opt(c), ap=c['ap'], data=c['data'], **_tw(rng))
         return block
 
@@ -2905,6 +3049,9 @@ def oracle(ctx):
                 res = {'required': 'oracle evaluates', 'observed': 'exception %s: %s' % (type(e).__name__, e),
                        'sig': {'exception': type(e).__name__}}
             ctx.count('oracle:' + op)
+            if op == 'validate_hourly' and bool(inp.get('dl')) != bool(inp['ap'][7]):
+                ctx.count('oracle_leap_mix:%s:%s:%s' % (_header_kind(inp['ap']), 'leap_steps' if inp['dl'] else 'leap_header',
+                                                        'tie' if _mix_tie(inp['ap'], inp['dl'], inp['data']) else 'plain'))
             for b in _branches(op, inp):
                 ctx.count('branch:' + b)
             if op not in ('history', 'key_history', 'order'):
